@@ -36,7 +36,9 @@ chk("C15", "model_checking",
     "TLC computes the exact orbit size of rational positions under every exported table (all 237 settings; quick: 60 seeded "
     "grid points + 28 special-position family members per table, thorough: the full 12^3 grid + families) and checks "
     "orbit-stabiliser, divisibility, representative-independence and lattice-shift invariance in the model; every case is "
-    "replayed into the real multiplicity() with float coordinates shifted by lattice vectors, by number+setting and by name.",
+    "replayed into the real multiplicity() with float coordinates shifted by lattice vectors, by number+setting and by name, as list / "
+    "array / numpy-integer group number, lattice points also as Python ints; the multiplicity calls the repository's own tests make "
+    "are recorded and validated against the model as well.",
     "Trusted: TLC, exporter (24ths), the group laws of the tables (C04's subject; a table that is not a group is reported here too).",
     "TLA+ spec Multiplicity.tla (exact orbits over exported tables) model-checked by TLC + replay of every case into multiplicity()",
     "DESIGN.md section 7 C15")
@@ -57,7 +59,9 @@ chk("C06", "model_checking",
     "Own TLC run of GenHkl.tla: the requirement 'exactly one member of every Laue family of the allowed set, expansion = allowed set' "
     "is checked in the model for the unit list; the real genhkl_unique (output_stl True/False) and genhkl_all (output_stl True) are "
     "replayed on every instance: integer rows, one representative per family, nothing else, genhkl_all = union of the families, "
-    "rows sorted by exact Q*, fourth column = sqrt(c Q*/4), shell bounds exclusive/inclusive.",
+    "rows sorted by exact Q*, fourth column = sqrt(c Q*/4), shell bounds exclusive/inclusive; pseudo-tetragonal cells detuned by 4e-8 have "
+    "their order checked with exact fractions. Thorough tier: the segment tables are model-checked to be sound asymmetric units on EVERY "
+    "conforming integer metric of a box (17.6k instances, 2.2M states), which also counts where the early exit loses families.",
     "Trusted: as C05. Known finding: early exit (same site).",
     "TLA+ spec GenHkl.tla model-checked by TLC; replay of every instance into genhkl_unique/genhkl_all; exact integer Q* as ordering and sintl oracle",
     "DESIGN.md section 7 C06")
@@ -79,7 +83,10 @@ chk("C20", "model_checking",
     "SwitchIsLastValid, NeverRejectsValid, OffMeansOff, OnRejectsInvalid and the action property InvalidAssignKeeps; every behaviour is "
     "replayed into the real package with outcome class, switch state and (for valid inputs) the returned value compared after each "
     "event. In the other direction hypothesis histories of up to 30 events are recorded from the real package and validated by TLC "
-    "against Trace_Checks.tla; two corrupted canary traces must be rejected on every run.",
+    "against Trace_Checks.tla; two corrupted canary traces must be rejected on every run. Also: assignments to a second instance of the "
+    "switch class, byte-identical inputs reused within a behaviour, the events of the repository's own test suite (recorded by a pytest "
+    "plugin kept in /verif) validated as one more trace, the model with DebugOn = FALSE replayed under `python -O`, and (thorough) an "
+    "Apalache proof that switch = last valid assignment is inductive, i.e. holds for histories of any length.",
     "Trusted: TLC; classification of an exception as the check's own (ValueError raised from xfab/checks.py); concretisation of input classes; python without -O.",
     "TLA+ spec Checks.tla model-checked by TLC; behaviours replayed into xfab; implementation traces validated against Trace_Checks.tla",
     "DESIGN.md section 7 C20")
@@ -91,7 +98,8 @@ chk("C19", "model_checking",
     "checking RoundTrip, VariedFollows, TypeOK and the action property VarylistLegal; every behaviour is replayed into a real object "
     "and the full projected state compared after every call. hypothesis histories (<= 30 events; random doubles compared bit-exactly, "
     "ints to 2^62, numeric-looking/padded/blank text) recorded from the real object are validated by TLC against "
-    "Trace_Parameters.tla; an intact canary trace must be accepted and two corrupted ones rejected on every run.",
+    "Trace_Parameters.tla; an intact canary trace must be accepted and two corrupted ones rejected on every run. The exhaustive alphabet "
+    "contains an integer no double represents (2^62+1) and the forced tail save -> load into a fresh object.",
     "Trusted: TLC; the token<->value tables of the harness; Python facts (float repr round trip, int()/float() grammar). Text values come "
     "from templates of known kind; underscores in numeric text are not generated.",
     "TLA+ spec Parameters.tla model-checked/simulated by TLC; behaviours replayed step by step; implementation traces validated against Trace_Parameters.tla",
@@ -113,7 +121,10 @@ chk("C01", "model_checking",
     "Gram bound (strongly oblique ones included) x every path of depth 4, checks the adjugate identities (G adj G = det G I, "
     "adj adj G = det G G, positivity of Q*) and emits exact det G, adj G, Q*(h). Every path is stepped through the real functions of "
     "xfab.tools and xfab.laue for three scale factors; after each call the float result is projected back to the metric "
-    "(A'A, B'B with the module's 2pi weight, V^2, sintl^2, cell parameters) and compared with the exact rational.",
+    "(A'A, B'B with the module's 2pi weight, V^2, sintl^2, cell parameters) and compared with the exact rational. Added after seeded "
+    "changes: a nearly orthogonal family (metric entries of 1e5, evaluated with the same formulas in unbounded integers; the identities "
+    "are proved for all integers by Apalache in the thorough tier), cells typed as integers, consecutive nearly equal scales, extreme "
+    "scales (edges of 0.2 A and 400 A), list/array containers, and a call guard (argument snapshot, second call, earlier results re-verified).",
     "Trusted: TLC integer algebra (overflow aborts), sqrt/acos used to build the float cell, tolerance 1e-9 relative / 1e-7 deg. The continuum is "
     "covered on a dense rational lattice, not proved for all reals.",
     "TLA+ spec Cell.tla (exact metric algebra as oracle) model-checked by TLC + replay of every behaviour into both modules with projection to the metric",
@@ -125,7 +136,9 @@ chk("C02", "model_checking",
     "the 24 axis-aligned rotations (incl. 180 degree ones) and seeded rotations x oblique metrics, checks N'N = D^2 I, det N = D^3 and the "
     "metric identities, and emits the exact values. Each path is stepped through tools and laue with every intermediate compared: "
     "UBI.UBI' = uG (rows are lattice vectors), UBI.(U.B.h) = (2pi)^w h, returned U = N'/D, B'B = adj G/(u det G), cell, Rodrigues vector. "
-    "ub_to_u_b also runs on general integer matrices with det > 0 against the integer oracle B'B = M'M, U'U = I, det U = +1, U.B = M.",
+    "ub_to_u_b also runs on general integer matrices with det > 0 against the integer oracle B'B = M'M, U'U = I, det U = +1, U.B = M, "
+    "including ill-conditioned ones given as exact factors P.diag(d).Q (condition number 1e3..1e6 by an exact bound). Every behaviour is "
+    "replayed at consecutive nearly equal and at extreme scales, through the call guard.",
     "Trusted: TLC, float concretisation, tolerance 1e-9; uniqueness of the QR split by Cholesky (the defining conditions are what is checked).",
     "TLA+ spec Orient.tla (Cayley rationals x integer metrics) model-checked by TLC + step-by-step replay of every path into both modules",
     "DESIGN.md section 7 C02")
